@@ -3,6 +3,7 @@ vs reader.  String content (escaping) lives in the rio_* libraries and is not de
 from ..cfg import Body
 from ..report import where
 from .c10 import pats, vname
+from .c03 import id_through
 
 LEVEL = "other"
 FORMATS = ("ntriples", "turtle", "rdfxml")
@@ -14,6 +15,8 @@ def run(ctx, F, cg):
     ctx.rule("R36a", "each serializer builds rio Literal::{Simple, LanguageTaggedString, Typed} and both subject kinds / all three object kinds, with xsd:string as the plain-literal datatype")
     ctx.rule("R36b", "each reader maps rio Literal::Simple / LanguageTaggedString / Typed back through new_simple_literal / new_language_tagged_literal / new_typed_literal, and NamedNode / BlankNode through their constructors")
     ctx.rule("R36c", "the three format wrappers agree with each other on these tables")
+    ctx.rule("R36d", "each reader hands the literal's lexical value to the literal constructor by identity operations only (no trim / case change / replace): the value is content, not markup")
+    ctx.rule("R36e", "each serializer returns the text produced by the rio formatter unchanged (from_utf8 and error mapping only): no escaping or rewriting is applied outside the formatter")
     tables = {}
     for fmt in FORMATS:
         mod = "samyama::rdf::serialization::%s::" % fmt
@@ -64,6 +67,44 @@ def run(ctx, F, cg):
             ctx.violation("R36b", "%s|convert_subject" % fmt, where(cs[0]), "subject kinds are not mapped to the same kind: %s" % sd)
         else:
             ctx.ok("R36b", "%s|convert_subject" % fmt, "NamedNode/BlankNode preserved")
+        # ---- R36d: lexical values pass through the reader unchanged ----
+        cob = Body(F.mir(co[0]["path"]), co[0])
+        nlit = 0
+        for c in cob.calls():
+            nm = c.path.rsplit("::", 1)[-1]
+            if nm not in LIT.values() or not c.args or c.args[0][0] == "k":
+                continue
+            nlit += 1
+            og = cob.origins(c.args[0][1][0], through_calls=id_through)
+            changed = sorted({o[1].path.rsplit("::", 1)[-1] for o in og if o[0] == "call"})
+            inst = "%s|convert_object|%s" % (fmt, nm)
+            if changed:
+                ctx.violation("R36d", inst + "|value-transformed", where(co[0], c.line),
+                              "the %s reader passes the literal's lexical value through %s before building the literal: a value with leading/trailing whitespace (or whatever the call changes) does not come back as it was written" % (fmt, changed))
+            else:
+                ctx.ok("R36d", inst, "lexical value reaches the constructor by identity operations only")
+        ctx.floor("R36d", "%s: literal constructions in the reader" % fmt, nlit, 3)
+        # ---- R36e: the serializer returns the formatter's bytes unchanged ----
+        transforms = []
+        for d in b.defs().get(0, []):
+            ops = []
+            if d[0] == "call":
+                ops = [a for a in d[2].args if a[0] != "k"]
+                first = d[2]
+            else:
+                continue
+            seen_calls = []
+            og = b.origins(0, through_calls=lambda cc: [0] if cc.path.rsplit("::", 1)[-1] in ("map_err", "from_utf8", "branch", "into_inner", "finish", "into", "from") else None)
+            for o in og:
+                if o[0] == "call" and o[1].path.rsplit("::", 1)[-1] not in ("from_residual",):
+                    seen_calls.append(o[1])
+            transforms = [cc for cc in seen_calls if cc.path.rsplit("::", 1)[-1] in ("map", "and_then", "replace", "to_uppercase", "to_lowercase", "trim", "escape_default", "escape_unicode") or (cc.path in F.fns and not cc.path.endswith("::serialize"))]
+        inst = "%s|serialize|output" % fmt
+        if transforms:
+            ctx.violation("R36e", inst + "|post-processed", where(ser[0], transforms[0].line),
+                          "the %s serializer rewrites the formatter's output (%s) before returning it: escaping done outside the rio formatter is not the format's escaping (e.g. a 4-digit \\u escape for a character above U+FFFF parses back as two characters)" % (fmt, transforms[0].path.rsplit("::", 1)[-1]))
+        else:
+            ctx.ok("R36e", inst, "the returned text is the formatter's output (from_utf8 / map_err only)")
         tables[fmt] = (sorted(aggs & want), has_xsd, rd, sd)
     ctx.floor("R36", "format wrappers analysed", len(tables), 3)
     vals = list(tables.values())
@@ -72,4 +113,4 @@ def run(ctx, F, cg):
     elif vals:
         ctx.violation("R36c", "siblings-disagree", "src/rdf/serialization", "the three wrappers differ: %s" % {k: (v[0], v[1]) for k, v in tables.items()})
     return ("Decided (weak): the wrappers' variant tables — which rio term/literal kind is built from which of ours, and back — agree per format and across formats. "
-            "Not decided: anything about string content (escaping of quotes, newlines, Unicode), which is inside the rio_* serializers and parsers.")
+            "Also decided: lexical values cross the wrappers unchanged in both directions (identity flow in the reader, no post-processing of the formatter output). Not decided: the escaping done inside the rio_* serializers and parsers.")
